@@ -817,14 +817,16 @@ def bg_nontrivial(si):
     return any(c.cmd == "bgraph" and len(c.O.get("bg_tree", [])) >= 1 for c in si.calls)
 
 
-register("C15", gen=gen_bgraph, oracles=[oracle.c15], nontrivial=bg_nontrivial, tags=bg_tags,
+register("C15", lean_modules=["FsProofs.Properties.C15"],
+         theorems=["Fs.C15.kruskal_sim", "Fs.C15.kruskal_spanning", "Fs.C15.kruskal_forest", "Fs.Kruskal.kruskal_agree", "Fs.Kruskal.kruskal_forest"],
+         gen=gen_bgraph, oracles=[oracle.c15], nontrivial=bg_nontrivial, tags=bg_tags,
          sections={"bg_outlets", "bg_edges", "bg_tree"},
          rule="single-direction graphs on random grids (+ a channel family giving basins of degree > 16), heavy ties, masks, arbitrary base levels; basin graph built with Kruskal and Boruvka, repeated updates on the same basin-graph object; edges, passes, tree compared exactly with the Lean model; oracle: independent adjacency scan + exact Kruskal weight; non-trivial = tree has at least one edge",
          trusted_base=FLOW_TB + ["std::sort tie order of Kruskal is recomputed by the harness with the same comparator and handed to the model, which validates it is a weight-sorted permutation",
                                  "m_max_low_degree regenerated from basin_graph.hpp"])
-_lvl("C15", "translation_validation",
-     "connect_basins, Kruskal (class map), Boruvka (adjacency linked lists, low/large-degree lists, buckets - statement by statement) and orient_edges are modelled in Lean (Fs.Mst) and compared exactly (edges with pass nodes/weights/lengths, tree order) on every run for both methods; the oracle recomputes the lowest passes by an adjacency scan and the minimum spanning weight by an independent exact Kruskal, checks spanning/acyclicity/orientation and Kruskal = Boruvka weight. Theorems so far exist for a simplified Kruskal (class-map invariant, spanning) that is not yet tied to Fs.Mst.kruskal, so no proof is claimed.",
-     "bit-exact differential correspondence with the Lean model of connect/Kruskal/Boruvka/orient + independent MST-weight oracle")
+_lvl("C15", "proof",
+     "Theorems about the executed Fs.Mst.kruskal (array class map with the accept/reject decisions of the C++ union-find): kruskal_sim (it accepts exactly the edges the abstract class-map Kruskal accepts, for any edge array, any processing order and any number of basins), hence kruskal_spanning (the two basins of every edge handed to Kruskal are connected by tree edges: the tree spans every component of the basin graph) and kruskal_forest (no accepted edge joins basins already connected by earlier tree edges: no cycle, so #tree = #basins - #components). That the processing order is weight-sorted is validated on every run (the harness recomputes std::sort's order; the model checks it is a sorted permutation); minimality of the total weight, the lowest-pass edge construction (connect_basins), Boruvka and orientation are modelled statement by statement, compared exactly, and checked by the independent adjacency-scan + exact-Kruskal oracle (Kruskal = Boruvka weight, orientation away from the root) - not proved.",
+     "Lean 4 simulation proof (executed array Kruskal refines the abstract class-map Kruskal: spanning + forest) + exact correspondence of connect/Kruskal/Boruvka/orient + independent MST-weight oracle")
 
 
 # ----------------------------------------------------------------------------- C18
